@@ -741,8 +741,13 @@ fn main() {
                 }).collect();
                 let mut bad: Vec<Value> = Vec::new();
                 for n in 0..per_thread {
-                    let v = &vectors[(n % 5) as usize];
-                    writer.write(&ClockErrorBound::new(libc::timespec { tv_sec: v.as_of.0, tv_nsec: v.as_of.1 }, libc::timespec { tv_sec: v.void_after.0, tv_nsec: v.void_after.1 }, v.bound, v.drift, 0, status_of(v.status)));
+                    // each record is asked a few times in a row (a client polls faster than the daemon
+                    // publishes, and a coarse clock repeats its readings)
+                    let burst = 1 + (t % 4);
+                    let v = &vectors[((n / burst) % 5) as usize];
+                    if n % burst == 0 {
+                        writer.write(&ClockErrorBound::new(libc::timespec { tv_sec: v.as_of.0, tv_nsec: v.as_of.1 }, libc::timespec { tv_sec: v.void_after.0, tv_nsec: v.void_after.1 }, v.bound, v.drift, 0, status_of(v.status)));
+                    }
                     let o = match catch_unwind(AssertUnwindSafe(|| client.now())) {
                         Ok(Ok(r)) => Outcome::Ok { earliest: (r.earliest.tv_sec(), r.earliest.tv_nsec()), latest: (r.latest.tv_sec(), r.latest.tv_nsec()), status: status_num(r.clock_status) },
                         Ok(Err(e)) => Outcome::Err { kind: kind_name(&e.kind).to_string(), errno: e.errno.0, detail: e.detail.clone() },
@@ -831,7 +836,48 @@ fn main() {
             let path = dir.join(format!("shm{}", it % 4));
             let spath = path.to_str().unwrap().to_string();
             let _ = std::fs::remove_file(&path);
-            let scen = it % 3;
+            let scen = it % 4;
+            if scen == 3 {
+                // (D) another context of the process has read a trusted record; the daemon then
+                // published a downgrade nobody here has read and died inside its next update (odd
+                // generation). A context opened now has never seen a complete record: it may only
+                // answer Unknown, or fail.
+                use std::os::unix::fs::FileExt;
+                let mut w = ShmWriter::new(&path).expect("ShmWriter::new");
+                let fresh = Vector { as_of: (5000, 0), void_after: (6000, 0), bound: 1000 + it as i64, drift: 1000, status: 1 + (it % 8 / 4) as i32, real: (1_700_000_000, 0), mono: (5000, 100 + (it % 3) as i64 * 2_000_000_000), kind: "contexts" };
+                w.write(&to_ceb(&fresh));
+                let mut a = ClockBoundClient::new_with_path(&spath).ok();
+                if let Some(c) = a.as_mut() {
+                    let o = ask(c, &fresh);
+                    judge("first-context", &fresh, &o, &mut violations, &mut evaluations);
+                }
+                w.write(&to_ceb(&Vector { status: 0, ..fresh }));
+                let f = std::fs::OpenOptions::new().read(true).write(true).open(&path).unwrap();
+                let mut g = [0u8; 2];
+                f.read_at(&mut g, 14).unwrap();
+                let odd = u16::from_ne_bytes(g) | 1;
+                f.write_at(&odd.to_ne_bytes(), 14).unwrap();
+                drop(f);
+                if it % 8 >= 6 {
+                    a = None;
+                }
+                clock::fixed::set(fresh.real, fresh.mono);
+                let r = catch_unwind(AssertUnwindSafe(|| ClockBoundClient::new_with_path(&spath).and_then(|mut b| b.now())));
+                evaluations += 1;
+                match r {
+                    Ok(Ok(res)) if status_num(res.clock_status) != 0 => {
+                        if violations.len() < 12 {
+                            violations.push(json!({"sig": "new-context-answers-from-a-record-it-never-read", "detail": format!("another context of the process had read {{status {}, as_of 5000 s}}; the daemon then published Unknown and died inside its next update (generation odd); a context opened now answered status {} (earliest {:?} latest {:?}) although it has never seen a complete record", fresh.status, status_num(res.clock_status), res.earliest, res.latest), "replay": ""}));
+                        }
+                    }
+                    Ok(_) => *counts.entry("scenario3-unknown-or-error".into()).or_insert(0) += 1,
+                    Err(_) => violations.push(json!({"sig": "new-context-panic", "detail": "opening a context at an odd generation panicked", "replay": ""})),
+                }
+                drop(a);
+                drop(w);
+                vworld::close_rdwr_fds_under(&dir);
+                continue;
+            }
             let v1 = generate(&prop, &mut rng).remove(0);
             let v2 = generate(&prop, &mut rng).remove(0);
             let v3 = generate(&prop, &mut rng).remove(0);
